@@ -1770,6 +1770,12 @@ func (e *Engine) deleteSeriesRange(seriesKeys [][]byte, min, max int64) error {
 			// If there are multiple fields, they will have the same prefix.  If any field
 			// has values, then we can't delete it from the index.
 			for i < len(deleteKeys) && bytes.HasPrefix(deleteKeys[i], k) {
+				// The prefix also matches the keys of other series whose key merely
+				// starts with this one (e.g. "cpu,host=a" and "cpu,host=a,region=x").
+				if sk, _ := SeriesAndFieldFromCompositeKey(deleteKeys[i]); !bytes.Equal(sk, k) {
+					i++
+					continue
+				}
 				if e.Cache.Values(deleteKeys[i]).Len() > 0 {
 					hasCacheValues = true
 					break
